@@ -31,7 +31,7 @@ EXPLANATION = (
 )
 
 MANIFEST = {
-    "technique": "static analysis: template-string abstract interpretation of path builders vs URL scheme, must-pass-through queries on emitters and on the auto-tiler's exits, loop-invariance of the recorded depth, tiling-geometry premises shared with C08, memo-key dependence and key-spelling consistency; who-may-write of the recorded Url; decorator caches of file readers; concrete evaluation of tile_path and of the published template per naming scheme over a grid of positions and formats (string evaluation of the path term), independence of the template from the directory; option forwarding of add_place_for_toast; emitters judged inside their callers; dispatch through tables of method names; index writer / loader round trip: every child list the writer can produce (truth-table enumeration of its tests) interpreted by the loader's loop",
+    "technique": "static analysis: template-string abstract interpretation of path builders vs URL scheme, must-pass-through queries on emitters and on the auto-tiler's exits, loop-invariance of the recorded depth, tiling-geometry premises shared with C08, memo-key dependence and key-spelling consistency; who-may-write of the recorded Url; decorator caches of file readers; concrete evaluation of tile_path and of the published template per naming scheme over a grid of positions and formats (string evaluation of the path term), independence of the template from the directory; option forwarding of add_place_for_toast; emitters judged inside their callers; dispatch through tables of method names; index writer / loader round trip: every child list the writer can produce (truth-table enumeration of its tests) interpreted by the loader's loop; CFG path query: no tiling step is reachable from an existing output directory except through its removal",
     "text": "Decides for all positions at once (symbolically) that written paths equal the expansion of the recorded URL template under both naming schemes, that file type / tile levels are derived from what is written, and that every way of emitting or returning a description passes through a step that fills it (fresh, repeated, override).",
     "note": "Trusted: os.path.join / str.format / str() semantics; wwt_data_formats serialises ImageSet fields faithfully; WWT expands {1},{2},{3} as level, x, y.",
 }
